@@ -61,7 +61,8 @@ func (l *limitReadCloser) Read(p []byte) (n int, err error) {
 		if l.N == -1 {
 			n--
 		}
-		if err == nil {
+		// The source may return the extra byte together with io.EOF: the stream is still too large
+		if err == nil || errors.Is(err, io.EOF) {
 			err = ErrStreamTooLarge
 		}
 		if !l.closed {
